@@ -193,7 +193,7 @@ def harness(eng, fam, P):
                     pass
             else:
                 mutate(eng, w, str(si), ['none', 'delete', 'write', 'mkdir', 'rmtree', 'file2dir', 'dir2file'],
-                       P.get('mut_paths', ['o', 'o/d', 'o/d/g', 'o/f', 'in/y']))
+                       P.get('mut_paths', ['o', 'o/d', 'o/d/g', 'o/d/z', 'o/f', 'in/y']))
         eng.sample({'family': fam, 'program': eng.path_info['program'], 'history': P['hist'], 'probe_paths': paths})
     finally:
         w.close()
